@@ -179,8 +179,8 @@ for n in ("k2_z0", "k2_z1", "k3_z0", "k3_z1", "k3_z2", "k4_z0", "k4_z1", "k4_z2"
 for n in ("k6_z0", "k6_z1", "k6_z2", "k7_z0", "k7_z1", "k7_z2", "k7_z3"):
     reg("ld_np_" + n, "synd", ["C05"], profiles=["rel"], tier=T, cap=1800, role="attempt", bounds="same, %s" % n, encodes=LD)
 for n, tier, role in (("k2_z0", Q, "lemma"), ("k3_z0", Q, "lemma"), ("k4_z1", Q, "lemma"), ("k5_z1", Q, "lemma"), ("k7_z2", T, "lemma"),
-                      ("k4_z0", T, "attempt"), ("k5_z0", T, "attempt"), ("k6_z0", T, "attempt"), ("k6_z1", T, "attempt"), ("k6_z2", T, "attempt")):
-    reg("ld_ct_" + n, "synd", ["C09"], profiles=["rel"], tier=tier, role=role, cap=900 if tier == Q else 2400,
+                      ("k4_z0", T, "attempt"), ("k6_z0", T, "attempt"), ("k6_z1", T, "attempt")):
+    reg("ld_ct_" + n, "synd", ["C09"], profiles=["rel"], tier=tier, role=role, cap=900 if tier == Q else 1800,
         bounds="Levinson-Durbin, %s: Ok(w) satisfies rows 0..t-1 of the Hankel system (the contract decode_gen relies on)" % n, encodes=LD)
 reg("ld_scale", "synd", ["C03", "C09"], profiles=["rel"], cap=1500, tier=T, role="attempt", bounds="k=4, scaling factors 2, 0x80, 0xFF, 3 symbolic syndromes: same locator", encodes=LD)
 reg("bp_1", "synd", ["C03", "C05"], profiles=["rel"], cap=600, bounds="Bjoerck-Pereyra, 1 locator, arbitrary value", encodes=["syndrome_based::find_error_values_bp"])
@@ -193,11 +193,11 @@ for n, tier in (("k2_b0", T), ("k2_b1", T), ("k3_b0", Q), ("k3_b1", Q)):
 for n, tier in (("k3_z1_b0", Q), ("k3_z2_b1", Q), ("k2_z0_b0", T), ("k3_z0_b0", T), ("k3_z0_b1", T)):
     reg("ok_w2_" + n, "synd", ["C09", "C05"], profiles=["rel"], tier=tier, cap=3600, mem_gb=8, qprops=["C09"],
         bounds=TOY + " %s: zero codeword + 2 errors (one beyond capacity) at symbolic positions/values, garbage in the other block, z leading zero syndromes: Ok => codeword" % n, encodes=GEN)
-for n in ("k2_z0_b0", "k2_z1_b1", "k3_z0_b0", "k3_z0_b1", "k3_z1_b0", "k3_z2_b1"):
-    reg("ok_gen_" + n, "synd", ["C09", "C05"], profiles=["rel"], tier=T, role="attempt", cap=2400, mem_gb=12,
+for n in ("k2_z0_b0", "k3_z0_b1"):
+    reg("ok_gen_" + n, "synd", ["C09", "C05"], profiles=["rel"], tier=T, role="attempt", cap=1800, mem_gb=8,
         bounds=TOY + " %s: EVERY byte of the received word symbolic (finder form)" % n, encodes=GEN)
-for n in ("ok_contract_k2", "ok_contract_k3"):
-    reg(n, "synd", ["C09", "C05"], profiles=["rel"], tier=T, role="attempt", cap=2400, mem_gb=12,
+for n in ("ok_contract_k3",):
+    reg(n, "synd", ["C09", "C05"], profiles=["rel"], tier=T, role="attempt", cap=1800, mem_gb=8,
         bounds=TOY + ": every byte symbolic, locator search replaced by its contract", encodes=GEN[:4])
 reg("dec_glue", "synd", ["C03", "C09", "C05"], profiles=["rel"], cap=1800, mem_gb=8, stubbing=True, qprops=["C03", "C05"],
     bounds="symbolic index over all 48 sizes: decode() calls decode_gen once per block with data[b..], error[b..], stride = blocks, err_len = k (decode_gen replaced by a recording stub)", encodes=["syndrome_based::decode"])
